@@ -45,7 +45,7 @@ Fixpoint to_obs (cf : lcfg) (hist : list bool) (lr : lastrej) (log : list lev) :
       end
   end.
 
-Definition model_cfg (cf : lcfg) : cfg := mkCfg (l_engine cf) (l_proc cf) true repaired.
+Definition model_cfg (cf : lcfg) : cfg := mkCfg (l_engine cf) (l_proc cf) true repaired true.
 
 (* the acceptor gives a log up when more than [acc_cap] model states are compatible with it *)
 Definition acc_cap : nat := 300.
